@@ -602,6 +602,7 @@ class FrameOf(Task):
         from pyvc.contract import Outcome
         st = State()
         task.configure(I)
+        install_for_generic_items(I)
         args, kwargs = task.setup(I, st)
         pre = st.fork()
         clo = task.closure(I)
@@ -771,6 +772,59 @@ def native_import_globals(w=None):
     if bad:
         problems.append(det)
     return (bool(problems), "; ".join(problems[:2])[:1200] or "imports with different template globals render each page's own values, in any order")
+
+
+def install_for_generic_items(I):
+    """An explicit `for k, v in <generic mapping>.items(): d[k] = f(v)` over the generic-key mapping model of contracts/c04.py
+    (the shape a dict comprehension is sometimes rewritten to): the body is run once for the generic key; an empty dict that the
+    body fills by item stores becomes the generic mapping with that key (same summary as c04's comprehension / update specs)."""
+    if "for_abstract" in I.specs:
+        return
+    cur = {}
+
+    def hook(I_, n, st, fr, itv):
+        if type(itv).__name__ != "GItems" or n.orelse:
+            return None
+        from contracts import c04
+        cur["itv"] = itv
+        filled = {x.value.id for stmt in n.body for x in ast.walk(stmt)
+                  if isinstance(x, ast.Subscript) and isinstance(x.ctx, ast.Store) and isinstance(x.value, ast.Name)}
+        for nm in filled:
+            try:
+                v = I_.lookup(st, fr, nm)
+            except Unsupported:
+                continue
+            if isinstance(v, Ref) and isinstance(st.get(v), HDict) and st.get(v).concrete and not st.get(v).items:
+                st.heap[v.id] = HObj(c04.GMap, fields={"dom": c04.Box(z3.K(itv.dom.sort().domain(), z3.BoolVal(False))), "k": None, "v": None}, path=nm)
+        out = []
+        for s2, r in I_.assign(n.target, (itv.k, itv.v), st, fr):
+            if isinstance(r, Raised):
+                from pyvc.interp import Ctl
+                out.append((s2, Ctl("raise", r.exc)))
+                continue
+            for s3, c in I_.exec_block(n.body, s2, fr):
+                if c.kind in ("ok", "continue"):
+                    from pyvc.interp import OK
+                    out.append((s3, OK))
+                elif c.kind == "break":
+                    raise Unsupported("break in a loop over a generic mapping", n)
+                else:
+                    out.append((s3, c))
+        return out
+
+    def setitem(I_, st, args, kwargs, node):
+        m, idx, v = args
+        h = st.get(m)
+        itv = cur.get("itv")
+        if itv is None or h.fields.get("k") is not None or not (isinstance(idx, Sym) and idx.t.eq(itv.k.t)):
+            raise Unsupported("item store into a generic mapping at a key other than the generic key", node)
+        from contracts import c04
+        h.fields.update({"dom": c04.Box(itv.dom), "k": itv.k, "v": v})
+        st.written.add((m.id, "*"))
+        return [(st, None)]
+
+    I.specs["for_abstract"] = hook
+    I.specs.setdefault("GMap.__setitem__", setitem)
 
 
 def entry_tasks():
